@@ -85,7 +85,15 @@ def well_formed_sources(sig):
     src = getattr(sig, 'sources', None)
     if not isinstance(src, dict) or not isinstance(src.get(DEPTHS), dict):
         return False
-    return set(src) - {DEPTHS} == set(sig.parameters)
+    if set(src) - {DEPTHS} != set(sig.parameters):
+        return False
+    # complete: every parameter credited to someone who has a depth (the result of an operation on a plain
+    # inspect.Signature -- upgraded on the fly, nobody to credit -- is itself no input with provenance)
+    try:
+        return bool(src[DEPTHS]) and min(src[DEPTHS].values()) == 0 and \
+            all(src[k] and all(f in src[DEPTHS] for f in src[k]) for k in sig.parameters)
+    except TypeError:
+        return False
 
 
 def handed_over(obj, value):
@@ -193,7 +201,7 @@ class Provenance(Monitor):
             return
         ctx.evaluated()
         ctx.count('C08.%s' % point)
-        self.structural(point, value, sig_inputs, w, rp)
+        self.structural(point, value, sig_inputs, w, rp, subject=args[0] if args else None)
         if point == 'merge' and all_signatures(args):
             self.rel_merge(args, value, w, rp)
         elif point == 'embed' and all_signatures(args):
@@ -208,7 +216,7 @@ class Provenance(Monitor):
             self.rel_modifier(translator, point, value, w, rp)
 
     # --------------------------------------------------------- structural
-    def structural(self, point, value, inputs, w, rp):
+    def structural(self, point, value, inputs, w, rp, subject=None):
         ctx = self.ctx
         src = value.sources
         V = lambda mech, what: ctx.violation('C08', 'Provenance', mech, what, w, rp)
@@ -272,6 +280,17 @@ class Provenance(Monitor):
                 nontrivial = True
         elif pnames:
             V('empty-depths-%s' % point, "'+depths' is empty although the signature has parameters")
+        # retrieval of a functools.partial object: it is the outermost callable of every chain ("depths start at 0 at
+        # the outermost callable")
+        if point in ('signature', 'forged_signature') and isinstance(subject, functools.partial):
+            ctx.count('C08.partial_outermost_checked')
+            try:
+                d0 = depths.get(subject)
+            except TypeError:
+                d0 = 0
+            if d0 != 0:
+                V('partial-object-not-at-depth-0', 'the partial object asked about is %s in the result of %s' % (
+                    'missing from the depths' if d0 is None else 'at depth %r' % d0, point))
         if nontrivial:
             ctx.nontrivial((point, bparams(value), tuple(sorted(
                 (k, len(v)) for k, v in src.items() if k != DEPTHS)), tuple(sorted(depths.values()))))
